@@ -152,13 +152,16 @@ def check_case(ctx, case):
         return
     P = [tuple(float(x) for x in row) for row in case["probe"]]
     with ctx.guard("B.restore.call", S_REST, st + "-call-raises"):
+        # state first (interpolation evaluates the integrand and would re-populate a lost point dictionary)
+        same_state = (np.array_equal(np.array(I.operation.get_result(), float), np.array(R.operation.get_result(), float))
+                      and dc.structure_sig(I) == dc.structure_sig(R) and dc.scheme_sig(I) == dc.scheme_sig(R)
+                      and I.get_total_num_points() == R.get_total_num_points())
         with quiet():
             vI = np.array(I(P), float)
             vR = np.array(R(P), float)
-        same = (np.array_equal(vI, vR) and np.array_equal(np.array(I.operation.get_result(), float), np.array(R.operation.get_result(), float))
-                and dc.structure_sig(I) == dc.structure_sig(R) and dc.scheme_sig(I) == dc.scheme_sig(R)
-                and I.get_total_num_points() == R.get_total_num_points())
-        ctx.check("B.restore.call", same, S_REST, st, "restored instance differs from the saved one: values at probe points %s vs %s" % (vR[:2], vI[:2]))
+        ctx.check("B.restore.call", same_state and np.array_equal(vI, vR), S_REST, st,
+                  "restored instance differs from the saved one: state equal %s (points %s vs %s); values at probe points %s vs %s"
+                  % (same_state, R.get_total_num_points(), I.get_total_num_points(), vR[:2], vI[:2]))
     with ctx.guard("B.restore.eval", S_REST, st + "-eval-raises"):
         with quiet():
             e1 = np.array(dc.clone(I).evaluate_final_combi()[0], float)
